@@ -19,8 +19,54 @@ def schema_of(sdl):
     return _SCHEMAS[sdl]
 
 
-def parse_case(case):
-    return parse(case["text"], allow_type_system=bool(case.get("ats")))
+ALT_RULES_ALL = False   # thorough tier: every rule class also on the alternative parses
+
+
+def parse_case(case, mode="loc"):
+    """mode loc: the text with locations (this is what the model sees);
+    noloc: parse(text, no_location=True) -- every node's loc is None;
+    parts: a Document assembled from separately parsed sources (case["parts"]),
+    so that the locations of nodes of different definitions coincide"""
+    ats = bool(case.get("ats"))
+    if mode == "noloc":
+        return parse(case["text"], allow_type_system=ats, no_location=True)
+    if mode == "parts":
+        from py_gql.lang import ast as _ast
+        defs = []
+        for t in case["parts"]:
+            defs.extend(parse(t, allow_type_system=ats).definitions)
+        return _ast.Document(definitions=defs)
+    return parse(case["text"], allow_type_system=ats)
+
+
+def _alt_rules(case):
+    if ALT_RULES_ALL:
+        return list(range(1, 27))
+    import zlib
+    h = zlib.crc32(case["text"].encode("utf-8"))
+    return sorted({25} | {i for i in range(1, 27) if (h + i) % 5 == 0})
+
+
+def _run_alt(case, schema, mode):
+    raised, reported, rules = [], [], _alt_rules(case)
+    try:
+        doc = parse_case(case, mode)
+    except Exception as e:  # noqa
+        return {"parse_exc": [type(e).__name__, str(e)[:120]]}
+    for i in rules:
+        cls = SPECIFIED_RULES[i - 1]
+        try:
+            res = validate_ast(schema, doc, validators=[_only(cls)])
+            if res.errors:
+                reported.append(i)
+        except Exception as e:  # noqa
+            raised.append([i, type(e).__name__, str(e)[:120]])
+    out = {"rules": rules, "raised": raised, "reported": reported}
+    try:
+        out["full"] = len(validate_ast(schema, parse_case(case, mode)).errors)
+    except Exception as e:  # noqa
+        out["full_exc"] = [type(e).__name__, str(e)[:120]]
+    return out
 
 
 def _only(cls):
@@ -30,7 +76,7 @@ def _only(cls):
 def run_rules(case):
     """each rule class alone through the public validators= parameter, then
     the default validator; returns a JSON-able observable"""
-    key = (REPO_TAG, case["sdl"], case["text"], bool(case.get("ats")))
+    key = _key(case)
     if key in _RULES_CACHE:
         return dict(_RULES_CACHE[key])
     schema = schema_of(case["sdl"])
@@ -51,12 +97,30 @@ def run_rules(case):
         obs["full"] = len(full.errors)
     except Exception as e:  # noqa
         obs["full_exc"] = [type(e).__name__, str(e)[:120]]
+    obs["noloc"] = _run_alt(case, schema, "noloc")
+    if case.get("parts"):
+        obs["parts"] = _run_alt(case, schema, "parts")
     _RULES_CACHE[key] = dict(obs)
     return obs
 
 
+def _key(case):
+    return (REPO_TAG, case["sdl"], case["text"], bool(case.get("ats")), tuple(case.get("parts") or ()))
+
+
 def rules_direct_checks(case, obs):
     out = []
+    for mode, what in (("noloc", "parsing-without-locations"), ("parts", "assembling-separately-parsed-sources")):
+        alt = obs.get(mode)
+        if not alt:
+            continue
+        if alt.get("raised") or "full_exc" in alt or "parse_exc" in alt:
+            out.append(("validation-returns-its-error-list-without-raising", None))
+        elif not obs.get("raised") and "full" in obs:
+            if [r for r in obs["reported"] if r in alt["rules"]] != alt["reported"]:
+                out.append(("per-rule-verdict-unchanged-by-%s" % what, None))
+            elif (alt["full"] > 0) != (obs["full"] > 0):
+                out.append(("default-validator-verdict-unchanged-by-%s" % what, None))
     if obs.get("raised") or "full_exc" in obs:
         out.append(("validation-returns-its-error-list-without-raising", None))
     elif (obs["full"] > 0) != bool(obs["reported"]):
@@ -101,7 +165,7 @@ def prefetch(cases):
     import multiprocessing
     todo, seen = [], set()
     for c in cases:
-        key = (REPO_TAG, c["sdl"], c["text"], bool(c.get("ats")))
+        key = _key(c)
         if key not in seen and key not in _RULES_CACHE:
             seen.add(key)
             todo.append(c)
@@ -116,4 +180,4 @@ def prefetch(cases):
         return
     for c, o in zip(todo, res):
         if o is not None:
-            _RULES_CACHE[(REPO_TAG, c["sdl"], c["text"], bool(c.get("ats")))] = o
+            _RULES_CACHE[_key(c)] = o
